@@ -338,7 +338,13 @@ impl Cx {
       _ => {}
     }
     // issuanceDate duplicate
-    match digit(3) {
+    match digit(4) {
+      3 => {
+        // equals what `iat` says in the iat+nbf vector below, never what the decisive claim says
+        vc.insert("issuanceDate".into(), json!(rfc3339(base_t - 500)));
+        desc.push("vc.issuanceDate=equals-iat-not-nbf".into());
+        must_reject.push("issuanceDate");
+      }
       1 => {
         vc.insert("issuanceDate".into(), json!(rfc3339(base_t)));
         desc.push("vc.issuanceDate=equal".into());
@@ -674,11 +680,11 @@ fn main() {
   for _ in 0..n / 3 {
     cx.presentation_roundtrip(&mut rng);
   }
-  // tampered credential claims: 6*3*2*3*2*3*2*3*4 = 15552 vectors, all enumerated (x date extremes drawn at random)
+  // tampered credential claims: 6*4*2*3*2*3*2*3*4 = 20736 vectors, all enumerated (x date extremes drawn at random)
   let reps = if args.thorough { 6 } else { 1 };
   let mut k = 0u64;
   for _ in 0..reps {
-    for idx in 0..15552u64 {
+    for idx in 0..20736u64 {
       k += 1;
       if args.mine(k) && (scale >= 1000 || idx % (1000 / scale.max(1)) == 0) {
         cx.tampered_credential(&mut rng, idx);
